@@ -35,7 +35,7 @@ func init() {
 			{ID: "R03.10", Template: "T-MUSTPASS", Text: "compiler frontend arms consume their immediates before the unreachable early exit", Min: 50},
 			{ID: "R03.11", Template: "T-WIDTH", Text: "interpreter drop ranges are computed in slot units, not value counts", Min: 1},
 			{ID: "R03.12", Template: "T-CONSULT", Text: "instantiation-time loops over element segments look up the table of active segments only (genuine defect found and fixed)", Min: 2},
-			{ID: "R03.13", Template: "T-SIBLING", Text: "every dispatch on the 0xFC sub-opcode decodes it as LEB128 (genuine defect found and fixed: interpreter signature table)", Min: 3},
+			{ID: "R03.13", Template: "T-SIBLING", Text: "every dispatch on the sub-opcode of a prefixed instruction (0xFC, 0xFD, 0xFE) decodes it as LEB128 (0xFC: genuine defect found and fixed; 0xFD/0xFE: known findings, the single-byte form is pinned by unit tests)", Min: 12},
 			{ID: "R03.14", Template: "T-CONSULT", Text: "the DWARF reader nil-tests what debug/dwarf hands out and bounds runs of null entries (genuine defects found and fixed)", Min: 3},
 			{ID: "R03.15", Template: "T-CONSULT", Text: "the validator compares a tail call's callee results with the function's results (genuine defect found and fixed)", Min: 2},
 			{ID: "R03.16", Template: "T-TAINT", Text: "no string concatenation in loops over input-sized data on the decode path (genuine defect found and fixed: FunctionType.key)", Min: 1},
@@ -46,7 +46,7 @@ func init() {
 		Controls: []core.Control{
 			{Name: "br-table-label-types-in-scratch-space", File: "internal/wasm/func_validation.go", Old: "\t\t\t\tdefaultLabelType = make([]ValueType, len(lnLabel.blockType.Results))\n\t\t\t\tcopy(defaultLabelType, lnLabel.blockType.Results)", New: "\t\t\t\tdefaultLabelType = append(valueTypeStack.requireStackValuesTmp[:0], lnLabel.blockType.Results...)", Rule: "R03.17", Substr: "requireStackValuesTmp"},
 			{Name: "passive-elements-bounds-checked", File: "internal/wasm/table.go", Old: "\t\t\tif !elem.IsActive() {\n\t\t\t\tcontinue // only active segments are written to a table at instantiation.\n\t\t\t}\n", New: "", Rule: "R03.12", Substr: "buildTables"},
-			{Name: "misc-subopcode-single-byte", File: "internal/engine/interpreter/signature.go", Old: "switch miscOp := wasm.OpcodeMisc(miscOp32); miscOp {", New: "switch miscOp := c.body[c.pc+1]; miscOp {", Rule: "R03.13", Substr: "wasmOpcodeSignature"},
+			{Name: "misc-subopcode-single-byte", File: "internal/engine/interpreter/signature.go", Old: "switch miscOp := wasm.OpcodeMisc(miscOp32); miscOp {", New: "switch miscOp := c.body[c.pc+1]; miscOp {", Rule: "R03.13", Substr: "misc (0xFC)"},
 			{Name: "dwarf-line-file-unchecked", File: "internal/wasmdebug/dwarf.go", Old: "\tif le.File == nil {\n", New: "\tif le.Line < 0 {\n", Rule: "R03.14", Substr: "le.File"},
 			{Name: "dwarf-null-entries-unbounded", File: "internal/wasmdebug/dwarf.go", Old: "\t\t\tif nullEntries++; nullEntries > maxConsecutiveNullEntries {\n\t\t\t\tbreak\n\t\t\t}\n", New: "\t\t\tnullEntries++\n", Rule: "R03.14", Substr: "loop"},
 			{Name: "tail-call-results-unchecked", File: "internal/wasm/func_validation.go", Old: "\t\t\t\tif !bytes.Equal(funcType.Results, functionType.Results) {\n\t\t\t\t\treturn fmt.Errorf(\"type mismatch on %s operation result type\", opcodeName)\n\t\t\t\t}\n", New: "", Rule: "R03.15", Substr: "OpcodeTailCallReturnCall "},
